@@ -57,7 +57,7 @@ SPECS["C09"] = dict(binary="rigv", pkg="rigv", test="TestC09", level="fault_enum
     shards={"quick": 16, "thorough": 16}, min_relevant={"quick": 300, "thorough": 1000},
     assumptions=["SQLite's own atomic commit is trusted (no torn writes / power loss)", "faults are injected at the database/sql driver seam: BEGIN, each exec/query, COMMIT of the operation's own statements (actor-scoped)",
                  "documented tolerance: a failed pull-family operation may have refreshed subscriptions.expires_at (the idle clock is written in its own first transaction)"],
-    rule="fault enumeration: for each of 33 mutating operations (publish 1/batch, create/update/delete topic and subscription, modify push config, ack, ack of ordered predecessor, modack +/0 across subscriptions, NackDeliveries with dead-lettering, pull plain/ordered/dead-letter-due/empty, stream ack+nack, seek to time x2 / snapshot, create/delete snapshot, dead-letter sweep, delay-injector PUT, 7 jobs through runOnce) in 2 (quick) or 6 (thorough) prepared states: for every statement index k=1..n (BEGIN, each statement, COMMIT) fail statement k with a driver error, and again cancelling the request context at k, on the same database; then the fault-free retry, compared with a fault-free twin. One case = one (operation, state, k, mode) fault point that was actually hit; all are non-trivial and distinct by construction.")
+    rule="fault enumeration: for each of 33 mutating operations (publish 1/batch, create/update/delete topic and subscription, modify push config, ack, ack of ordered predecessor, modack +/0 across subscriptions, NackDeliveries with dead-lettering, pull plain/ordered/dead-letter-due/empty, stream ack+nack, seek to time x2 / snapshot, create/delete snapshot, dead-letter sweep, delay-injector PUT, 7 jobs through runOnce) in 2 (quick) or 24 (thorough) prepared states: for every statement index k=1..n (BEGIN, each statement, COMMIT) fail statement k with a driver error, and again cancelling the request context at k, on the same database; then the fault-free retry, compared with a fault-free twin. One case = one (operation, state, k, mode) fault point that was actually hit; all are non-trivial and distinct by construction.")
 
 SCHED_ASSUME = [
     "interleavings are explored at transaction boundaries (before BEGIN / after COMMIT), the only points where SQLite with immediate transactions lets two actors interleave; PostgreSQL row-lock interleavings and cross-process LISTEN/NOTIFY are not executed",
